@@ -235,6 +235,54 @@ func init() {
 				c.Fail("C14d/deleteStaleEntries/removes-the-scheduled-blocks", c.P.InstrPos(s.Instr), "removes "+trunc(d, 80))
 			}
 		}
+		c.Rule("C14e pending delete moves with the latest version: in AppendEntry the previous latest version's DeleteAt is taken over (remembered, then reset to 'none' and stored) directly under latestEntry.HasDeleteAt(), with no further condition; the new version is created with that DeleteAt, and under entry.HasDeleteAt() the delete timer is transferred from the previous to the new version")
+		if ap := c.Fn(fsK + "AppendEntry"); ap != nil {
+			var reset *ssa.Store
+			ir.EachInstr(ap, func(in ssa.Instruction) {
+				if st, ok := in.(*ssa.Store); ok {
+					if fa, ok := st.Addr.(*ssa.FieldAddr); ok && fieldNameOfAddr(fa) == "DeleteAt" && strings.Contains(ir.Desc(st.Val), "18446744073709551615") {
+						if a := allocOf(fa.X); a != nil || true {
+							if reset == nil {
+								reset = st
+							}
+						}
+					}
+				}
+			})
+			if reset == nil {
+				c.Fail("C14e/AppendEntry/takes-over-pending-delete", c.P.Pos(ap.Pos()), "the previous latest version's pending delete is no longer taken over by the appended version")
+			} else {
+				direct := false
+				for _, p := range reset.Block().Preds {
+					iff, ok := p.Instrs[len(p.Instrs)-1].(*ssa.If)
+					if !ok {
+						continue
+					}
+					f := ir.Fact(iff.Cond, p.Succs[0] == reset.Block())
+					if strings.HasPrefix(f, "call(x/fixationstore/types.Entry.HasDeleteAt)(") && len(reset.Block().Preds) == 1 {
+						direct = true
+					}
+				}
+				if direct {
+					c.OK("C14e/AppendEntry/takes-over-pending-delete", c.P.InstrPos(reset), "directly under latestEntry.HasDeleteAt()")
+				} else {
+					c.Fail("C14e/AppendEntry/takes-over-pending-delete", c.P.InstrPos(reset), "the pending delete is taken over only under an additional condition: otherwise the superseded version keeps its delete timer after giving up its 'latest' reference, and the timer's putEntry hits refcount 0 (panic in BeginBlock)")
+				}
+			}
+			okTransfer := false
+			for _, s := range c.CallsByName(ap, false, fsK+"transferTimer") {
+				call := ir.CallOf(s.Instr)
+				kind := c.Const("x/fixationstore/types", "timerDeleteEntry")
+				if ir.HasFact(ir.GuardFacts(s.Instr), "call(x/fixationstore/types.Entry.HasDeleteAt)(") && ir.Desc(call.Args[5]) == kind && strings.HasSuffix(ir.Desc(call.Args[4]), ".DeleteAt") {
+					okTransfer = true
+				}
+			}
+			if okTransfer {
+				c.OK("C14e/AppendEntry/transfers-delete-timer-to-new-version", c.P.Pos(ap.Pos()), "")
+			} else {
+				c.Fail("C14e/AppendEntry/transfers-delete-timer-to-new-version", c.P.Pos(ap.Pos()), "the delete timer is not moved to the appended version")
+			}
+		}
 		c.NotCovered("equivalence with a reference model over operation sequences; AppendEntry/DelEntry/future-version bookkeeping; the marker logic that decides which stale versions must stay; that legal use never reaches the assertion panics")
 	})
 }
